@@ -317,6 +317,16 @@ O(id='BIT_STRING_encode_der.canon', props=['C02', 'C06', 'C07'], kind='bounded',
 O(id='BIT_STRING_encode_der.malformed', props=['C07'], kind='bounded', entry='h_BIT_STRING_encode_der_malformed', functions=['OCTET_STRING_encode_der'],
   unwind=14, bound='bit strings of 1..4 octets, every int value of bits_unused', min_props=50, timeout=600, **BS)
 
+# ---------------------------------------------------------------- OER primitives / open type
+OP = dict(harness='harness/h_oer_prim.c', units=[SK + 'oer_decoder.c', SK + 'oer_encoder.c', SK + 'oer_support.c'], fp_restrict=[(r'::cb$', ['vf_cb'])],
+          link=[SK + f for f in ('asn_codecs_prim.c', 'ber_decoder.c', 'der_encoder.c', 'ber_tlv_tag.c', 'ber_tlv_length.c')])
+O(id='oer_open_type_skip', props=['C03', 'C04', 'C05'], kind='bounded', entry='h_oer_open_type_skip', functions=['oer_open_type_skip'],
+  unwind=14, bound='every input of at most 12 octets', min_props=30, **OP)
+O(id='oer_decode_primitive.b12', props=['C04', 'C05', 'C14', 'C15'], kind='bounded', entry='h_oer_decode_primitive', functions=['oer_decode_primitive', 'ASN__PRIMITIVE_TYPE_free'],
+  unwind=14, cbmc=['--malloc-may-fail', '--malloc-fail-null', '--memory-leak-check'], bound='every input of at most 12 octets, fresh or re-used structure; every allocation may fail', min_props=50, **OP)
+O(id='oer_primitive_roundtrip', props=['C01', 'C02', 'C07'], kind='bounded', entry='h_oer_primitive_roundtrip', functions=['oer_encode_primitive', 'oer_decode_primitive', 'oer_serialize_length'],
+  unwind=18, bound='contents of at most 6 octets; callback may fail at any call', min_props=50, **OP)
+
 UNVERIFIED = {
  'C07': ['asn_encode_to_buffer / asn_encode_to_new_buffer / uper_encode_to_buffer / uper_encode_to_new_buffer with a UPER type encoder: obligations exist (tier experimental) but do not discharge (symbolic-length memcpy of the 32-octet bit scratch space runs out of memory); asn_encode with UPER is covered',
          'every constructed / generated type encoder is assumed to follow the operation-slot convention enumerated by the stub encoder',
